@@ -760,6 +760,7 @@ func (ev *env) execRefs(cs *caseSpec) (res vx.Result) {
 			D := T[p]
 			oid := gitx.Oid(D)
 			sel := allows(inc, exc, p)
+			fname := cs.filter.name + cs.dimTag(p) // the shapes world puts the class of the path into the fingerprints
 			post, postOK := postWT[p]
 			ac := afterClass(post, postOK, gitx.TreeEntry{}, false, oid, gitx.Oid([]byte(gitx.PointerText(D))))
 			outParts = append(outParts, ac)
@@ -767,7 +768,7 @@ func (ev *env) execRefs(cs *caseSpec) (res vx.Result) {
 				// whatever the exit status: a path that exists holds the object bytes or the pointer, never anything else
 				if _, wt := postWT[".gitattributes"]; wt || ok {
 					if !(ac == "orig" || ac == "ptr" || (!ok && ac == "absent")) {
-						viol("C04:wrong-bytes:lfsclone:"+cs.filter.name+faultTag, fmt.Sprintf("%s (exit %d) left %s as %s (%s): neither the object bytes nor a valid pointer for its oid", shown, r.Code, p, ac, describeEntry(post, postOK)))
+						viol("C04:wrong-bytes:lfsclone:"+fname+faultTag, fmt.Sprintf("%s (exit %d) left %s as %s (%s): neither the object bytes nor a valid pointer for its oid", shown, r.Code, p, ac, describeEntry(post, postOK)))
 						continue
 					}
 					cnt("E.lfsclone.content-or-pointer")
@@ -786,7 +787,7 @@ func (ev *env) execRefs(cs *caseSpec) (res vx.Result) {
 					}
 					fp := "C04:object-missing:" + label
 					if cs.cloneMode == cmPlain {
-						fp += ":" + cs.filter.name
+						fp += ":" + fname
 					}
 					if cs.fault != ftNone && oid == cs.faultOid {
 						fp += ":download-failed"
@@ -797,14 +798,14 @@ func (ev *env) execRefs(cs *caseSpec) (res vx.Result) {
 				}
 				if cs.cloneMode == cmPlain {
 					if ac != "orig" {
-						viol("C04:not-materialised:lfsclone:"+cs.filter.name, fmt.Sprintf("%s succeeded but selected path %s is %s instead of the original bytes", shown, p, ac))
+						viol("C04:not-materialised:lfsclone:"+fname, fmt.Sprintf("%s succeeded but selected path %s is %s instead of the original bytes", shown, p, ac))
 					} else {
 						cnt("W.lfsclone.materialised")
 					}
 				}
 			} else if cs.cloneMode == cmPlain {
 				if ac != "ptr" {
-					viol("C04:excluded-not-pointer:lfsclone:"+cs.filter.name, fmt.Sprintf("%s succeeded, %s is excluded (%s) but is %s instead of a valid pointer", shown, p, cs.filter.name, ac))
+					viol("C04:excluded-not-pointer:lfsclone:"+fname, fmt.Sprintf("%s succeeded, %s is excluded (%s) but is %s instead of a valid pointer", shown, p, cs.filter.name, ac))
 				} else {
 					cnt("X.lfsclone.excluded-is-pointer")
 				}
@@ -837,6 +838,9 @@ func (ev *env) execRefs(cs *caseSpec) (res vx.Result) {
 		}
 		if len(postBad) > 0 {
 			cnt("store-holds-hash-invalid-object-after-command")
+		}
+		if cs.world == shapesW {
+			rel += " shape=" + shapeNames[cs.treeRef()]
 		}
 		finish(fmt.Sprintf("%s exit=%d %s fault=%s", label, r.Code, strings.Join(outParts, ","), rel))
 		return
